@@ -3,6 +3,7 @@ package main
 import (
 	"fmt"
 	"go/ast"
+	"go/token"
 	"go/types"
 	"sort"
 	"strconv"
@@ -16,13 +17,14 @@ func init() { register("C12", checkC12) }
 
 func checkC12(c *Ctx) {
 	r, p := c.R, c.P
-	r.Explanation = "Decides the structural conditions of a well-formed report. (J1) Id scheme: the recursive id assignment names a child held under key k `parent_k` and the i-th element of an array `parent_i`, recurses into every typed object and every element of every array, and assigns an id to every typed node it reaches; this scheme is injective when no node constructor has a purely numeric key and at most one key whose value is an array of typed nodes - checked on every node constructor: the object literals of error(), trace() and location() in the embedded Rego and the trace-value templates of the generator; the roots are `<level>_<ordinal>` per bucket (C03.L4) and every bucket element is appended to the result list (no indexed writes, no gaps). (J2) Node shape: both variants of error() carry @type, sourceShapeName, focusNode, resultMessage and trace; both variants of trace() carry @type, component, resultPath and traceValue; every trace-value template starts with the typed-node header. (J3) Focus node: in error() the focusNode value is the @id of the node argument; at every error(...) call template of the generator the node argument is the variable bound by the target_class line (top level) or by the iteration over the nested node set (nested), i.e. a node of the input graph; the trace list argument is the non-empty list of the branch's trace bindings. (J4) The first argument of error(...) is the validation's name (as a string literal) or the constant `nested`. (J5) Envelope and encoding: the dialect instance is a one-element list whose doc:encodes is a one-element list holding the report node; the report text is the output of encoding/json's encoder, returned without any textual post-processing. (J6) The encoder's error is examined by the encoding function and by its callers (the evaluation can hand back json.Number values that are not JSON numbers, e.g. to_number(\"03\"); dropping the error returns an empty document as the report). Does not decide non-emptiness for degenerate profiles (message: \"\", or: [])."
+	r.Explanation = "Decides the structural conditions of a well-formed report. (J1) Id scheme: the recursive id assignment names a child held under key k `parent_k` and the i-th element of an array `parent_i`, recurses into every typed object and every element of every array, and assigns an id to every typed node it reaches; this scheme is injective when no node constructor has a purely numeric key and at most one key whose value is an array of typed nodes - checked on every node constructor: the object literals of error(), trace() and location() in the embedded Rego and the trace-value templates of the generator; the roots are `<level>_<ordinal>` per bucket (C03.L4) and every bucket element is appended to the result list (no indexed writes, no gaps). (J2) Node shape: both variants of error() carry @type, sourceShapeName, focusNode, resultMessage and trace; both variants of trace() carry @type, component, resultPath and traceValue; every trace-value template starts with the typed-node header. (J3) Focus node: in error() the focusNode value is the @id of the node argument; at every error(...) call template of the generator the node argument is the variable bound by the target_class line (top level) or by the iteration over the nested node set (nested), i.e. a node of the input graph; the trace list argument is the non-empty list of the branch's trace bindings. (J4) The first argument of error(...) is the validation's name (as a string literal) or the constant `nested`. (J5) Envelope and encoding: the dialect instance is a one-element list whose doc:encodes is a one-element list holding the report node; the report text is the output of encoding/json's encoder, returned without any textual post-processing. (J7) Every atomic rule kind's Negate returns a value whose Name is the receiver's (negation normal form rebuilds rules through Negate; the trace's component is the rule's Name). (J6) The encoder's error is examined by the encoding function and by its callers (the evaluation can hand back json.Number values that are not JSON numbers, e.g. to_number(\"03\"); dropping the error returns an empty document as the report). Does not decide non-emptiness for degenerate profiles (message: \"\", or: [])."
 	r.Declines = []string{"encoding/json produces valid JSON for the value it is given", "non-empty message / trace for degenerate profiles (empty message text, empty operand lists)"}
 	r.Trusted = []string{"encoding/json", "OPA object literals evaluate to objects with exactly the written keys"}
 	r.Rule("C12.J1", "ids: parent_key / parent_index, recursion into all typed children, constructors admit an injective scheme, results appended without gaps", 8)
 	r.Rule("C12.J2", "result and trace nodes carry all required keys in both variants; trace values are typed nodes", 4)
 	r.Rule("C12.J3", "focusNode is the @id of a node variable bound from the input graph; trace list is the branch's bindings", 4)
 	r.Rule("C12.J4", "sourceShapeName is the validation name or `nested`", 2)
+	r.Rule("C12.J7", "negating a constraint keeps its component name (the trace names the failed component also under not / if)", 8)
 	r.Rule("C12.J6", "the JSON encoder's error is never dropped: an unencodable report is an error, not an empty document", 1)
 	r.Rule("C12.J5", "one dialect instance encoding one report node; JSON text is the encoder's output untouched", 3)
 
@@ -30,7 +32,139 @@ func checkC12(c *Ctx) {
 	c12Shapes(c)
 	c12Focus(c)
 	c12Envelope(c)
+	c12NegateKeepsName(c)
+	c12TreeShape(c)
 	_ = p
+}
+
+// ---- J8: ids are assigned by walking the result tree and writing @id into each node map. That is only injective when
+// the structure is a tree: a node map reachable under two parents is visited twice and both occurrences end up with the
+// id of the second visit. So no code on the report path may store a node it read out of the tree back into the tree.
+func c12TreeShape(c *Ctx) {
+	r, p := c.R, c.P
+	r.Rule("C12.J8", "the report structure stays a tree: no node read from it is stored into it a second time", 1)
+	var roots []*ssa.Function
+	for _, fn := range p.ModuleFuncs() {
+		if RelPkg(fn) != "internal/validator" {
+			continue
+		}
+		for _, prm := range fn.Params {
+			if strings.HasSuffix(prm.Type().String(), "rego.ResultSet") {
+				roots = append(roots, fn)
+			}
+		}
+	}
+	if len(roots) == 0 {
+		r.Unknown("C12.J8", "builder", "", "no function taking the evaluation result was found")
+		return
+	}
+	reach := p.Reach(roots...)
+	fromContainer := func(v ssa.Value) (bool, string) {
+		for depth := 0; depth < 8 && v != nil; depth++ {
+			switch x := v.(type) {
+			case *ssa.MakeInterface:
+				v = x.X
+			case *ssa.ChangeInterface:
+				v = x.X
+			case *ssa.ChangeType:
+				v = x.X
+			case *ssa.TypeAssert:
+				v = x.X
+			case *ssa.Extract:
+				switch t := x.Tuple.(type) {
+				case *ssa.Lookup:
+					return true, "read from " + t.X.Name()
+				case *ssa.TypeAssert:
+					v = t.X
+				case *ssa.Next:
+					return true, "an element obtained by ranging over a container"
+				default:
+					return false, ""
+				}
+			case *ssa.Lookup:
+				return true, "read from " + x.X.Name()
+			case *ssa.UnOp:
+				if x.Op == token.MUL {
+					if ia, ok := x.X.(*ssa.IndexAddr); ok {
+						return true, "an element of " + ia.X.Name()
+					}
+				}
+				return false, ""
+			default:
+				return false, ""
+			}
+		}
+		return false, ""
+	}
+	refType := func(t types.Type) bool {
+		switch u := t.Underlying().(type) {
+		case *types.Map, *types.Slice, *types.Pointer:
+			return true
+		case *types.Interface:
+			_ = u
+			return true
+		}
+		return false
+	}
+	stores := 0
+	for _, fn := range sortedFuncs(reach) {
+		ord := ordinal{}
+		for _, b := range fn.Blocks {
+			for _, ins := range b.Instrs {
+				mu, ok := ins.(*ssa.MapUpdate)
+				if !ok {
+					continue
+				}
+				stores++
+				val := mu.Value
+				// only reference-typed values can alias; strings and numbers are copied
+				under := val
+				for {
+					if mi, ok := under.(*ssa.MakeInterface); ok {
+						under = mi.X
+						continue
+					}
+					break
+				}
+				if !refType(under.Type()) {
+					continue
+				}
+				if is, why := fromContainer(val); is {
+					r.Bad("C12.J8", ord.next(FuncKey(fn)+"#shared-node"), p.Pos(mu.Pos()), "a value "+why+" is stored into a map of the report: the same node is then reachable under two parents, the id assignment visits it twice and both occurrences carry the same @id (and the ids of its children)")
+				}
+			}
+		}
+	}
+	r.OK("C12.J8", "census", "", fmt.Sprintf("%d map stores in %d functions on the report path: none stores a node read from a container", stores, len(reach)))
+}
+
+// ---- J7: the constraint id of a trace entry is the rule's Name; negation normal form rebuilds rules through Negate, so a
+// Negate that loses the name makes every negated occurrence report an empty component
+func c12NegateKeepsName(c *Ctx) {
+	r, p := c.R, c.P
+	m, err := loadC01Model(p)
+	if err != nil {
+		r.Unknown("C12.J7", "model", "", err.Error())
+		return
+	}
+	for _, k := range m.kinds {
+		if !m.atomic[k] || !hasField(k, "Name") {
+			continue
+		}
+		key := "internal/parser/profile." + k.Obj().Name() + ".Negate#keeps-name"
+		problems, _, undecided := negateCopyAnalysis(p, k)
+		if undecided != "" {
+			r.Unknown("C12.J7", key, "", undecided)
+			continue
+		}
+		var nameProblems []string
+		for _, pr := range problems {
+			if strings.HasPrefix(pr, "Name ") || strings.Contains(pr, "does not return a copy") || strings.HasPrefix(pr, "BaseStatement ") || strings.HasPrefix(pr, "AtomicStatement ") {
+				nameProblems = append(nameProblems, pr)
+			}
+		}
+		r.Check(len(nameProblems) == 0, "C12.J7", key, "", "the negated rule carries the receiver's Name", "the negated rule does not carry the receiver's Name ("+strings.Join(nameProblems, "; ")+"): a trace entry of a negated "+k.Obj().Name()+" names no component")
+	}
 }
 
 // ---- J1
@@ -355,22 +489,30 @@ func c12Shapes(c *Ctx) {
 			r.Check(len(missing) == 0, "C12.J2", k, fmt.Sprintf("preamble line %d", rl.Location.Row-1), "carries "+strings.Join(req, ", "), "this variant of "+name+"() lacks "+strings.Join(missing, ", "))
 		}
 	}
-	// the trace value header
+	// the trace value header (E-sym: the text is judged however it is assembled)
 	gen := c.P.Pkg("internal/generator")
 	if gen != nil {
 		found := false
+		proto := &symWalker{}
+		proto.OnText = func(w *symWalker, at ast.Expr, text *Sym) {
+			tpl := text.Template()
+			if !strings.HasPrefix(tpl, `{"@type"`) || !strings.Contains(tpl, "TraceValue") {
+				return
+			}
+			found = true
+			okShape := text.K == symConcat && len(text.Parts) == 3
+			if okShape {
+				last, _ := text.Parts[2].ConstString()
+				okShape = strings.TrimSpace(last) == "}" && text.Parts[1].K != symConst
+			}
+			r.Check(okShape, "C12.J2", "trace-value-header", c.P.Pos(at.Pos()), "every trace value is an object starting with its @type", "the trace value template does not wrap its members in a typed object: "+tpl)
+		}
 		for _, f := range gen.Syntax {
-			ast.Inspect(f, func(n ast.Node) bool {
-				call, ok := n.(*ast.CallExpr)
-				if !ok || funcFullName(calleeOf(gen.TypesInfo, call)) != "fmt.Sprintf" || len(call.Args) != 2 {
-					return true
+			for _, d := range f.Decls {
+				if fd, ok := d.(*ast.FuncDecl); ok && fd.Body != nil {
+					c.P.SymWalk(gen, fd, proto, nil)
 				}
-				if s, ok := constString(gen.TypesInfo, call.Args[0]); ok && strings.HasPrefix(s, `{"@type"`) && strings.Contains(s, "TraceValue") {
-					found = true
-					r.Check(strings.HasSuffix(strings.TrimSpace(s), "%s}"), "C12.J2", "trace-value-header", c.P.Pos(call.Pos()), "every trace value is an object starting with its @type", "the trace value template does not wrap its members in a typed object")
-				}
-				return true
-			})
+			}
 		}
 		if !found {
 			r.Unknown("C12.J2", "trace-value-header", "", "the typed trace-value template was not found")
